@@ -36,6 +36,8 @@ def build(spec, caps):
     if k == "cut":
         cap = caps[spec["capture"] % len(caps)][1]
         d = spec["delta"]
+        if "ext" in spec:                       # a genuine frame followed by chosen extra bytes
+            return cap + bytes.fromhex(spec["ext"])
         return cap[:d] if d < 0 else cap + pattern(d, spec.get("seed", 1))
     if k == "hex":
         return bytes.fromhex(spec["hex"])
@@ -114,7 +116,7 @@ def body_reject(rep, case, sub="reject"):
             continue
         datagrams.append((s, d))
         near = any(abs(len(d) - n) <= 3 for n in refb.ACCEPTED_LENGTHS)
-        rep.tick(sub, key=(s.get("kind"), len(d), d[:2].hex(), s.get("seed")), nontrivial=near or d[:2] == b"\xfe\xf0",
+        rep.tick(sub, key=(s.get("kind"), len(d), d[:2].hex(), s.get("seed"), s.get("ext"), s.get("capture")), nontrivial=near or d[:2] == b"\xfe\xf0",
                  sample={"batch": [s]}, labels=(f"kind={s['kind']}", "magic" if d[:2] == b"\xfe\xf0" else "no-magic",
                                                 "accepted-length" if len(d) in refb.ACCEPTED_LENGTHS else "other-length"))
     if not datagrams:
@@ -177,6 +179,16 @@ def cases_lengths():
     cuts = [{"kind": "cut", "capture": c, "delta": d, "seed": c + 3} for c in range(ncap) for d in (-3, -2, -1, 1, 2, 3)]
     for i in range(0, len(cuts), 36):
         out.append({"batch": cuts[i:i + 36]})
+    # a genuine frame plus ONE extra byte, for every byte value (line ends, NUL, blanks, the magic ...), and a few pairs
+    exts = [f"{b:02x}" for b in range(256)] + ["0d0a", "0a0a", "0000", "fef0", "2020"]
+    gate_caps = [c for c in range(ncap) if refb.gate(refb.captures()[c][1])]
+    picks = {}
+    for c in gate_caps:
+        picks.setdefault(len(refb.captures()[c][1]), c)
+    for c in picks.values():
+        specs = [{"kind": "cut", "capture": c, "delta": len(e) // 2, "ext": e} for e in exts]
+        for i in range(0, len(specs), 40):
+            out.append({"batch": specs[i:i + 40]})
     return out
 
 
@@ -188,6 +200,8 @@ def strat_reject():
         st.binary(max_size=300).map(lambda b: {"kind": "hex", "hex": b.hex()}),
         st.builds(lambda c, d, s: {"kind": "cut", "capture": c, "delta": d, "seed": s}, st.integers(0, 40),
                   st.sampled_from([-40, -3, -2, -1, 1, 2, 3, 40]), st.integers(0, 1000)),
+        st.builds(lambda c, e: {"kind": "cut", "capture": c, "delta": len(e), "ext": e.hex()}, st.integers(0, 40),
+                  st.one_of(st.binary(min_size=1, max_size=3), st.sampled_from([b"\n", b"\r\n", b"\x00", b" ", b"\n\n"]))),
     )
     return st.lists(spec, min_size=1, max_size=30).map(lambda b: {"batch": b})
 
